@@ -64,9 +64,10 @@ func genCase(rng *rand.Rand) *caseDesc {
 }
 
 type live struct {
-	e      *base.SentinelEntry
-	res    int
-	faulty bool
+	e       *base.SentinelEntry
+	res     int
+	faulty  bool
+	counted bool // a faulty request the library keeps in its in-flight figure
 }
 
 // boomSlot panics for requests carrying the argument "boom" (it runs before the isolation slot)
@@ -124,7 +125,7 @@ func runCase(idx int, c *caseDesc) {
 			l := lives[k]
 			lives = append(lives[:k], lives[k+1:]...)
 			l.e.Exit()
-			if !l.faulty {
+			if !l.faulty || l.counted {
 				inflight[l.res]--
 			}
 			if got := stat.GetResourceNode(names[l.res]).CurrentConcurrency(); int64(got) != int64(inflight[l.res]) {
@@ -141,14 +142,23 @@ func runCase(idx int, c *caseDesc) {
 				run.Violation("C04/faulty-request-not-passed", fmt.Sprintf("op %d: a request whose rule evaluation panicked was not passed: %v", i, be), c)
 				return
 			}
+			counted := false
 			if n := stat.GetResourceNode(names[o.Res]); n != nil {
-				if got := n.CurrentConcurrency(); int64(got) != int64(inflight[o.Res]) {
+				// (the library may treat such a request as admitted-and-in-flight - it then occupies one unit until its
+				// exit like any other entry - or leave it out of the books altogether; what it must not do is half of it)
+				switch got := n.CurrentConcurrency(); int64(got) {
+				case int64(inflight[o.Res]):
+				case int64(inflight[o.Res]) + 1:
+					counted = true
+					inflight[o.Res]++
+					run.Count("faulty_requests_counted_as_in_flight", 1)
+				default:
 					c.FailAt = i
 					run.Violation("C04/gauge-after-faulty-request", fmt.Sprintf("op %d: gauge %d after a request passed because of an internal panic, model %d", i, got, inflight[o.Res]), c)
 					return
 				}
 			}
-			lives = append(lives, live{en, o.Res, true})
+			lives = append(lives, live{e: en, res: o.Res, faulty: true, counted: counted})
 		case "enter":
 			// expected: first rule (list order) with inflight + b > N blocks
 			blockIdx := -1
@@ -220,7 +230,7 @@ func runCase(idx int, c *caseDesc) {
 					return
 				}
 				inflight[o.Res]++
-				lives = append(lives, live{en, o.Res, false})
+				lives = append(lives, live{e: en, res: o.Res})
 			}
 		}
 	}
